@@ -163,7 +163,7 @@ def check(ctx):
             n2 = lib.tail(mir.fn_name(fr), 2)
             if n2 == "Commands::queue" and any("ReactionCommand" in a for a in fr.get("args", [])):
                 queues.append(b)
-            if lib.tail(mir.fn_name(fr), 1) == "schedule_entity_reaction_impl":
+            if _is_entity_scheduler(prog, fr):
                 queues.append(b)
         heads = []
         for b, t, fr in m.iter_calls():
@@ -192,6 +192,13 @@ def check(ctx):
     import core, c06
     n = core.adopt(ctx, c06, lambda o: o["rule"] == "C06.f", "C14.e")
     ctx.notes.append("C14.e adopts %d entry-deletion obligations (C06.f)" % n)
+
+
+def _is_entity_scheduler(prog, fr):
+    try:
+        return prog.resolve_local(fr) is A.entity_scheduler(prog)[0]
+    except mir.AnchorLost:
+        return lib.tail(mir.fn_name(fr), 1) == "schedule_entity_reaction_impl"
 
 
 def set_if_neq(ctx, prog, E, m, label):
